@@ -5,6 +5,7 @@
 //!                               {id, o:[observation per layout, "=" when equal to layout 0]}
 //!   mutate LIST OUT N SEED      N single-token mutations of the corpus files listed in LIST; one line per mutant
 //!                               {id, file, mut, o: observation}; the real token stream is part of the observation
+//!   files LIST OUT              the same observation for every file of LIST, unmutated
 //!   show CASE LAYOUT SEED       source text, token stream and observation of one case (replay files)
 //!   showmut FILE MUT            the same for a corpus mutant ({"op","at","with"})
 //!
@@ -40,9 +41,11 @@ fn case_source(case: &Value, seed: u64, layout: u64) -> Result<String, String> {
     render::render(toks, seed, id, layout)
 }
 
+/// k layouts; k >= 100 means the single layout k - 100 (100 = plain single spaces, 101.. = seeded random layouts)
 fn replay_one(case: &Value, k: u64, seed: u64) -> String {
     let mut obs: Vec<Value> = Vec::new();
-    for layout in 0..k {
+    let layouts: Vec<u64> = if k >= 100 { vec![k - 100] } else { (0..k).collect() };
+    for layout in layouts {
         let src = match case_source(case, seed, layout) {
             Ok(s) => s,
             Err(e) => return json!({"id": case["id"], "toolerror": e}).to_string(),
@@ -53,7 +56,7 @@ fn replay_one(case: &Value, k: u64, seed: u64) -> String {
             v["ta"] = o.alpha_tree.unwrap_or(Value::Null);
             v["td"] = o.delta_tree.unwrap_or(Value::Null);
         }
-        if layout > 0 && v == obs[0] {
+        if !obs.is_empty() && v == obs[0] {
             obs.push(json!("="));
         } else {
             obs.push(v);
@@ -73,6 +76,9 @@ const SPELLINGS: [&str; 40] = [
 /// The mutation of file `path` described by `m` = {op, at, with?}: at = index of a token of the real stream.
 fn apply_mutation(src: &str, m: &Value) -> Result<String, String> {
     let (stream, _) = observe::Stream::lex(src);
+    if m["op"] == "none" {
+        return Ok(src.to_string());
+    }
     let at = m["at"].as_u64().ok_or("mutation without position")? as usize;
     if at >= stream.spans.len() {
         return Err(format!("token {at} of {}", stream.spans.len()));
@@ -126,15 +132,39 @@ fn apply_mutation(src: &str, m: &Value) -> Result<String, String> {
     Ok(out)
 }
 
+thread_local! {
+    static BASE_OK: std::cell::RefCell<std::collections::HashMap<String, bool>> = std::cell::RefCell::new(std::collections::HashMap::new());
+}
+
+/// does the first-generation parser accept the unmutated file?
+fn base_ok(path: &str, src: &str) -> bool {
+    if let Some(b) = BASE_OK.with(|m| m.borrow().get(path).copied()) {
+        return b;
+    }
+    let s = src.to_string();
+    let ok = std::panic::catch_unwind(move || {
+        let decls = penne::alpha::parser::parse(penne::alpha::lexer::lex(&s, "m.pn"));
+        observe::parse_stage_errors(&decls).is_empty()
+    })
+    .unwrap_or(false);
+    BASE_OK.with(|m| m.borrow_mut().insert(path.to_string(), ok));
+    ok
+}
+
 fn mutant_line(id: u64, path: &str, seed: u64) -> String {
+    mutant_line_with(id, path, seed, false)
+}
+
+fn mutant_line_with(id: u64, path: &str, seed: u64, untouched: bool) -> String {
     let src = match std::fs::read_to_string(path) {
         Ok(s) => s,
         Err(e) => return json!({"id": id, "toolerror": format!("{path}: {e}")}).to_string(),
     };
+    let base = base_ok(path, &src);
     let (stream, _) = observe::Stream::lex(&src);
     let n = stream.spans.len();
     let mut rng = Rng::new(seed ^ 0x73796e74, id);
-    let m = if n == 0 || id % 16 == 0 {
+    let m = if n == 0 || id % 16 == 0 || untouched {
         json!({"op": "none", "at": 0})
     } else {
         let at = rng.below(n);
@@ -150,7 +180,7 @@ fn mutant_line(id: u64, path: &str, seed: u64) -> String {
     match apply_mutation(&src, &m) {
         Ok(text) => {
             let o = observe::observe(&text, true);
-            json!({"id": id, "file": path, "mut": m, "o": o.v}).to_string()
+            json!({"id": id, "file": path, "mut": m, "base_ok": base, "o": o.v}).to_string()
         }
         Err(e) => json!({"id": id, "toolerror": e}).to_string(),
     }
@@ -193,6 +223,14 @@ fn worker(args: &[String]) {
                 // every file gets its share: the file is a function of the mutant's number
                 let path = &files[(i * 7919 + (b as usize % 997)) % files.len()];
                 let l = mutant_line(i as u64, path, b);
+                writeln!(out, "{l}").unwrap();
+                out.flush().unwrap();
+            }
+        }
+        "files" => {
+            let files = read_lines(&args[1]);
+            for i in start..end {
+                let l = mutant_line_with(i as u64, &files[i], b, true);
                 writeln!(out, "{l}").unwrap();
                 out.flush().unwrap();
             }
@@ -271,6 +309,10 @@ fn main() {
         "mutate" if rest.len() == 4 => {
             let n: usize = rest[2].parse().unwrap();
             parent("mutate", &rest[0], &rest[1], n, 0, rest[3].parse().unwrap());
+        }
+        "files" if rest.len() == 2 => {
+            let total = count_lines(&rest[0]);
+            parent("files", &rest[0], &rest[1], total, 0, 0);
         }
         "show" if rest.len() == 3 => {
             let case: Value = if std::path::Path::new(&rest[0]).exists() {
